@@ -14,7 +14,7 @@ cd $WT
 if ! git apply "$D/patch.diff"; then echo "RESULT patch-does-not-apply"; git -C /repo worktree remove --force $WT; exit 9; fi
 echo "== build with patch"; make -j8 > $WT.build1.log 2>&1; echo "build rc=$?"
 echo "== existing tests with patch"
-for d in src lib test-suite compat; do (cd $d && make -k check > $WT.check-$d.log 2>&1); done
+for d in src lib test-suite compat; do (cd $d && make -k -j8 check > $WT.check-$d.log 2>&1); done
 PASS=$(cat $WT.check-*.log | grep -cE "^PASS:"); FAIL=$(cat $WT.check-*.log | grep -cE "^(FAIL|ERROR):")
 echo "tests with patch: PASS=$PASS FAIL/ERROR=$FAIL"; cat $WT.check-*.log | grep -E "^(FAIL|ERROR):" | head
 echo "== demo with patch (must fail)"
